@@ -99,7 +99,7 @@ def run(ctx):
     ctx.trusted = ["spec/Rel.tla", "native construction of the base queries in harness/props/c15.py", "SQLite 3.40"]
     # quick: one base condition and one pre-join per host query, instance 0.  thorough: up to two base conditions and
     # two pre-joins (author and info) in every order on instance 0 (337 k behaviours), plus the quick machine on instance 1
-    plans = [(0, "FALSE")] if ctx.tier == "quick" else [(0, "TRUE"), (1, "FALSE")]
+    plans = [(0, "FALSE")] if ctx.tier == "quick" else [(0, "TRUE"), (0, "FALSE"), (1, "FALSE")]
     for inst, deep in plans:
         res = tlc.run("MC_C15", constants={"Inst": inst, "Deep": deep}, keep_lines=lambda r: r.get("k") in ("case", "db"),
                       timeout=7000, heap="12g")
